@@ -84,7 +84,6 @@ func sattr(in *In) nfstypes.Sattr3 {
 // XDR codec are exercised by the transport mode).
 func (r *Rig) Call(in *In) *Out {
 	out := &Out{}
-	r.Calls++
 	killed := simrt.Scope(r.Group, func() { r.call(in, out) })
 	if killed {
 		return &Out{Crashed: true}
